@@ -587,8 +587,15 @@ struct ModelRun
 
     // ---- scans -------------------------------------------------------------------------------
     // mode 0: live keys; 1: live + absent; 2: + expired-not-removed (they must miss: C04)
-    void scan(int mode, const std::string& miss_tags)
+    bool scan(int mode, const std::string& miss_tags)
     {
+        bool                looked = false;
+        const std::set<int> z0     = M.Z; // statuses as of the start of the scan
+        auto                first  = [&]() {
+            if (!looked)
+                M.call_start_purge(); // ut_map / ut_set: the first lookup of the scan purges
+            looked = true;
+        };
         for (int k = 0; k < x.c.uni; ++k)
         {
             auto it = M.live.find(k);
@@ -596,7 +603,8 @@ struct ModelRun
             {
                 uint64_t v  = 0;
                 size_t   uc = 0;
-                bool     h  = pfind(k, v, &uc);
+                first();
+                bool h = pfind(k, v, &uc);
                 if (!h)
                     x.fail(step, miss_tags, "live_key_missing", "key " + std::to_string(k) + " should be found (peek) but is not");
                 if (!x.caps.is_set && v != it->second.val)
@@ -610,12 +618,13 @@ struct ModelRun
                 if (creations_after_removal > 0)
                     x.label("checked_hits_after_recycle");
             }
-            else if (M.Z.count(k))
+            else if (z0.count(k))
             {
                 if (mode >= 2)
                 {
                     uint64_t v = 0;
-                    bool     h = pfind(k, v);
+                    first();
+                    bool h = pfind(k, v);
                     probe_zombie_labels(k);
                     if (h)
                         x.fail(step, "C04", "expired_entry_served", "key " + std::to_string(k) + " expired but was returned (value " + std::to_string(v) + ")");
@@ -624,7 +633,8 @@ struct ModelRun
             else if (mode >= 1)
             {
                 uint64_t v = 0;
-                bool     h = pfind(k, v);
+                first();
+                bool h = pfind(k, v);
                 if (h)
                     x.fail(step, "C01", "absent_key_found",
                            "key " + std::to_string(k) + " must be absent but returned " + std::to_string(v) + " (a value written for key " +
@@ -632,7 +642,9 @@ struct ModelRun
                 x.label("checked_absent");
             }
         }
-        since_adv = false;
+        if (looked)
+            since_adv = false;
+        return looked;
     }
 
     std::map<int, int64_t> zombie_deadline; // label support: deadline with which a key expired
@@ -1532,18 +1544,18 @@ struct ModelRun
                     continue;
                 case cs::O_ADVTO: do_advance_to(o); continue;
                 case cs::O_SCAN:
-                    M.call_start_purge();
-                    scan(o.mode, since_adv && M.ttl_kind() ? "C05,C03" : "C03");
-                    invariants(true, observe());
+                {
+                    const bool looked = scan(o.mode, since_adv && M.ttl_kind() ? "C05,C03" : "C03");
+                    invariants(looked, observe());
                     continue;
+                }
                 case cs::O_OBS: invariants(false, observe()); continue;
                 default: continue;
             }
             // after every mutating / looking-up call: everything that should be there is, nothing else is
-            M.call_start_purge();
-            scan(1, since_adv && M.ttl_kind() ? "C03,C05" : "C03");
+            const bool looked = scan(1, since_adv && M.ttl_kind() ? "C03,C05" : "C03");
             if (M.utx())
-                invariants(true, observe());
+                invariants(looked, observe());
         }
     }
 };
@@ -1621,7 +1633,6 @@ Result run_model(const cs::Case& c, const Options& opt)
         }
         run.run();
         // final full scan including expired entries (C04)
-        run.M.call_start_purge();
         run.note_expired();
         run.M.expire(vt::now());
         run.scan(2, "C03");
